@@ -258,3 +258,60 @@ def reference_inside(E, env):
 def judge_membership(E, env, tol):
     """status per row of returned sample rows (IN / OUT / UNDECIDED) for interior or boundary E."""
     return rg.status(E, env, tol)
+
+
+def pinned_scenarios(seed):
+    """every primitive (off-origin, slanted / clockwise, one parameter-dependent) and a few
+    one-level compositions x every sampling path, n = 37 and n = 1: deterministic coverage of
+    the (shape, path) grid that random generation only visits by luck."""
+    C = lambda *v: {"k": "const", "v": list(v)}
+    dep = lambda v0, a: {"k": "affine", "var": "p", "v0": list(v0), "V1": [[x] for x in a]}
+    box = [[sx * 0.6 + 0.4, sy * 0.5 - 0.3, sz * 0.7 + 0.2] for sx in (-1, 1) for sy in (-1, 1) for sz in (-1, 1)]
+    boxf = [[0, 1, 3], [0, 3, 2], [4, 6, 7], [4, 7, 5], [0, 4, 5], [0, 5, 1], [2, 3, 7], [2, 7, 6], [0, 2, 6], [0, 6, 4], [1, 5, 7], [1, 7, 3]]
+    disc = {"t": "circle", "var": "x", "c": C(0.3, -0.2), "r": C(1.0)}
+    sq = {"t": "par", "var": "x", "o": C(0.1, 0.2), "c1": C(0.5, 1.6), "c2": C(1.7, 0.4)}          # clockwise, slanted
+    exprs = [
+        {"t": "interval", "var": "u", "lo": C(-0.4), "hi": dep([0.9], [0.5])},
+        {"t": "circle", "var": "x", "c": dep([0.4, -0.3], [0.5, 0.2]), "r": C(0.8)},
+        sq,
+        {"t": "tri", "var": "x", "o": C(-0.6, 0.1), "c1": C(0.9, -0.4), "c2": C(0.2, 1.3)},
+        {"t": "sphere", "var": "y", "c": C(0.5, -0.4, 0.3), "r": C(0.8)},
+        {"t": "poly", "var": "x", "verts": [[-0.5, -0.5], [1.5, -0.5], [1.5, 0.3], [0.3, 0.3], [0.3, 1.5], [-0.5, 1.5]], "hole": None},
+        {"t": "mesh", "var": "y", "verts": box, "faces": boxf, "kind": "box", "winding": "out"},
+        {"t": "union", "a": disc, "b": sq, "disjoint": False},
+        {"t": "cut", "a": disc, "b": sq, "contained": False},
+        {"t": "isect", "a": disc, "b": sq},
+        {"t": "translate", "a": sq, "v": dep([0.5, -0.5], [1.0, 0.5])},
+        {"t": "rotate", "a": sq, "angle": dep([0.7], [1.1]), "around": C(0.8, -0.3), "form": "angles"},
+        {"t": "product", "a": disc, "b": {"t": "interval", "var": "t", "lo": C(0.0), "hi": C(1.5)}},
+        {"t": "product", "a": {"t": "circle", "var": "x", "c": C(0.2, 0.1),
+                               "r": {"k": "affine", "var": "t", "v0": [0.4], "V1": [[0.6]]}},
+         "b": {"t": "interval", "var": "t", "lo": C(0.0), "hi": C(1.0)}},
+    ]
+    paths_i = ["dom-random-n", "dom-grid-n", "dom-random-d", "dom-grid-d", "S-random-n", "S-grid-n", "S-random-d",
+               "S-grid-d", "S-random-n-filter", "S-grid-n-filter", "static-grid", "adaptive-threshold", "gaussian", "lhs"]
+    out = []
+    i = 0
+    for E in exprs:
+        prod = rg.has(E, lambda n: n["t"] == "product")
+        for bd in (False, True):
+            EE = {"t": "boundary", "a": E} if bd else E
+            if bd and E["t"] == "product":
+                continue
+            for path in paths_i:
+                if (bd or prod) and path in ("gaussian", "lhs"):
+                    continue
+                if prod and "grid" in path:
+                    continue
+                for n in (37, 1):
+                    if n == 1 and path not in ("dom-random-n", "dom-grid-n", "S-grid-n"):
+                        continue
+                    fv = rg.free_vars(EE)
+                    k2 = path.startswith("S-") and "-d" not in path
+                    prows = {"p": [[0.3], [0.9]] if k2 else [[0.6]]} if fv else ({"p": [[0.3], [0.9]]} if k2 and i % 3 == 0 else {})
+                    i += 1
+                    kind = "boundary" if bd else ("depproduct" if prod and "t" in rg.free_vars(E["a"]) else "product" if prod else "interior")
+                    out.append({"dom": {"E": EE, "kind": kind, "pvars": sorted(fv), "lattice": False, "far": False},
+                                "prows": prows, "rng": seed * 1000 + i, "path": path, "n": n, "m": 23,
+                                "fq": 0.7, "faxis": i % 2, "gq": i, "expo": 2.0, "ratio": 0.5})
+    return out
